@@ -18,6 +18,7 @@ import (
 
 	"github.com/AstromechZA/etcpwdparse"
 
+	"hop.computer/hop/authgrants"
 	"hop.computer/hop/authkeys"
 	"hop.computer/hop/certs"
 	"hop.computer/hop/common"
@@ -422,6 +423,42 @@ func runE2E(in *bufio.Scanner, out *bufio.Writer) {
 					return "served"
 				}
 				return "served" // the handler answered something
+			case "issue":
+				i, g, leafOk, ok := parseIssue(f)
+				if !ok || !okUser([]byte(g.user)) {
+					return "bad-op"
+				}
+				if i >= len(w.sessions) {
+					return "nosess"
+				}
+				pk := getChain().clientKey(g.key).Public
+				w.kn[pk] = g.key
+				in := g.intent(pk)
+				if !leafOk {
+					in.DelegateCert.Type = certs.Intermediate
+				}
+				t, err := w.sessions[i].client.TubeMuxer.CreateReliableTube(common.AuthGrantTube)
+				if err != nil {
+					return "tube-err"
+				}
+				defer func() { go t.Close() }()
+				if err := authgrants.WriteIntentCommunication(t, *in); err != nil {
+					return "write-err"
+				}
+				t.SetReadDeadline(time.Now().Add(e2eWait))
+				resp, err := authgrants.ReadConfOrDenial(t)
+				t.SetReadDeadline(time.Time{})
+				if err != nil {
+					if errors.Is(err, os.ErrDeadlineExceeded) {
+						wedged = true
+						return "timeout"
+					}
+					return "closed"
+				}
+				if resp.MsgType == authgrants.IntentConfirmation {
+					return "confirmed"
+				}
+				return "denied"
 			case "dump":
 				if len(f) != 1 {
 					return "bad-op"
@@ -495,6 +532,22 @@ func genE2E(g *GenCtx) {
 		for k := 0; k < 4; k++ {
 			g.Op("tube %d %d %d", g.R.Intn(2), Pick(g.R, []int{0, 2, 3, 4, 5, 6, 7, 8, 200}), g.R.Intn(2))
 		}
+		// a session issues grants through an authorization-grant tube: the principal's normal way
+		// (session 1, admitted by key, for its own user) and the same from the grant-admitted session
+		switch g.R.Intn(4) {
+		case 0:
+			g.Op("issue 1 2 1000 4000000000 %s 4 %s 1", hx(other), hx("id"))
+			g.Op("issue 1 2 1000 4000000000 %s 4 %s 1", hx(user), hx("id")) // for another user: policy refuses
+			g.Op("issue 1 1 1000 1000 %s 4 - 1", hx(other))                 // already expired
+			g.Op("issue 1 5 1000 4000000000 %s 4 - 1", hx(other))           // unknown kind
+			g.Op("issue 1 1 1000 4000000000 %s 4 - 0", hx(other))           // ill-formatted delegate certificate
+			g.Op("dump")
+			g.Op("login %s 4", hx(other))
+		case 1:
+			g.Op("issue 0 1 1000 4000000000 %s 1 - 1", hx(user)) // the delegate grants itself a shell
+			g.Op("dump")
+			g.Op("login %s 1", hx(user))
+		}
 		g.Op("dump")
 	}
 	g.Op("new")
@@ -523,4 +576,12 @@ func genFull(g *GenCtx) {
 		g.Op("tube 0 %d %d", p[0], p[1])      // grant-admitted session: the full statement demands a refusal
 		g.Op("exec 0 1500 0 %s 0", hx("ls"))  // the granted command still runs
 	}
+	// the grant-admitted session issues itself a shell grant
+	g.Op("new")
+	g.Op("grant 2 1000 2000 %s 1 %s", hx("u"), hx("ls"))
+	g.Op("login %s 1", hx("u"))
+	g.Op("loginkey %s 7", hx("v"))
+	g.Op("issue 1 1 1000 4000000000 %s 4 - 1", hx("v")) // a principal's session: confirmed
+	g.Op("issue 0 1 1000 4000000000 %s 1 - 1", hx("u")) // the full statement demands a refusal
+	g.Op("dump")
 }
